@@ -159,6 +159,38 @@ theorem intercalate_nil {β : Type} (l : List (List β)) : List.intercalate [] l
       simp only [List.intercalate, List.intersperse_cons_cons, List.flatten_cons, List.nil_append] at ih ⊢
       rw [ih]
 
+/-- the loop that builds `fullList`, for ANY body that appends the word and, before every word but the last, one space -/
+theorem jl_build' (xs : List (List α)) (body : Int → List α → List (List α) → R (List (List α)))
+    (hbody : ∀ (k : Nat) (w : List α) (acc : List (List α)), k < xs.length →
+      body (k : Int) w acc = pure (if (k : Int) + 1 < (xs.length : Int) then acc ++ [w] ++ [[cx.sp]] else acc ++ [w])) :
+    Go.forRangeM xs body [] = pure (jlFull cx xs (List.replicate (xs.length - 1) 0)) := by
+  rw [forRangeM_congr xs body (fun k w acc => pure (if k + 1 < (xs.length : Int) then acc ++ [w] ++ [[cx.sp]] else acc ++ [w])) [] hbody]
+  have := jl_build cx (xs.length : Int) xs 0 [] (by omega)
+  simpa [Go.forRangeM] using this
+
+/-- the part of JustifyLine after the two guards, for ANY loop condition / body that agree with the semantic ones
+(`jlCond`, `jlBody`); `odd` is the model's parity term -/
+theorem jl_tail (t : List α) (width odd : Int) (hg : 2 ≤ (splitOn t [cx.sp]).length) (hw : (gLen cx t : Int) < width)
+    (cond : List (List α) × Bool × Int × Int → R Bool)
+    (body : List (List α) × Bool × Int × Int → R (List (List α) × Bool × Int × Int))
+    (k : List (List α) × Bool × Int × Int → R (List α))
+    (hc : ∀ s, cond s = jlCond (width - (gLen cx t : Int)) s)
+    (hb : ∀ s, body s = jlBody cx (((splitOn t [cx.sp]).length : Int) - 1) odd s)
+    (hk : ∀ s, k s = pure s.1.flatten) :
+    Go.whileM ((width - (gLen cx t : Int)).toNat + 1) cond body
+        (jlFull cx (splitOn t [cx.sp]) (List.replicate ((splitOn t [cx.sp]).length - 1) 0), false, 0, 0) >>= k =
+      distribute (((splitOn t [cx.sp]).length : Int) - 1) odd (width - (gLen cx t : Int)).toNat 0 false
+          (List.replicate (((splitOn t [cx.sp]).length : Int) - 1).toNat 0) >>= fun extra =>
+        pure (interleave cx (splitOn t [cx.sp]) extra) := by
+  have hrep : (((splitOn t [cx.sp]).length : Int) - 1).toNat = (splitOn t [cx.sp]).length - 1 := by omega
+  have hR : ∀ m : R (List Nat), (m >>= fun extra => (pure (interleave cx (splitOn t [cx.sp]) extra) : R _)) =
+      ((jlFull cx (splitOn t [cx.sp]) ·) <$> m) >>= fun fl => pure fl.flatten := by
+    intro m; simp only [map_eq_pure_bind, bind_assoc, pure_bind, jlFull_flatten]
+  rw [hR, hrep, distribute_eq_while cx (splitOn t [cx.sp]) _ (width - (gLen cx t : Int))
+    ((width - (gLen cx t : Int)).toNat + 1) _ _ false 0 0 (by simp; omega) (by omega) (by omega)]
+  simp only [map_eq_pure_bind, bind_assoc, pure_bind]
+  exact whileM_bind_congr rfl rfl hc hb hk
+
 theorem justifyLine_regenerated (h : Gen.Code.justifyLine_extracted = true) (text : List α) (width : Int) :
     Gen.Code.justifyLine cx text width = justifyLine cx text width := by
   first
@@ -167,29 +199,29 @@ theorem justifyLine_regenerated (h : Gen.Code.justifyLine_extracted = true) (tex
        simp only [collapseSpace_regenerated cx (by decide)]
        go_norm
        refine bind_congr (m := R) fun t => ?_
-       split
-       · rfl
-       · split
-         · rfl
-         · rename_i hw hg
-           simp only [Go.forRangeM, ite_pure, pure_bind]
-           have hlen : 2 ≤ (splitOn t [cx.sp]).length := by omega
-           rw [jl_build cx ((splitOn t [cx.sp]).length : Int) (splitOn t [cx.sp]) 0 [] (by omega)]
-           simp only [pure_bind, List.nil_append]
-           have hodd : (if ((((splitOn t [cx.sp]).length : Int) - 1) % 2 == 0) = true then (0 : Int) else 1) =
-               (if (((splitOn t [cx.sp]).length : Int) - 1).tmod 2 = 0 then (0 : Int) else 1) := by
-             rw [Int.tmod_eq_emod_of_nonneg (by omega)]
-             simp
-           have hrep : (((splitOn t [cx.sp]).length : Int) - 1).toNat = (splitOn t [cx.sp]).length - 1 := by omega
-           have hR : ∀ m : R (List Nat), (m >>= fun extra => (pure (interleave cx (splitOn t [cx.sp]) extra) : R _)) =
-               ((jlFull cx (splitOn t [cx.sp]) ·) <$> m) >>= fun fl => pure fl.flatten := by
-             intro m; simp only [map_eq_pure_bind, bind_assoc, pure_bind, jlFull_flatten]
-           rw [hR, hodd, hrep, distribute_eq_while cx (splitOn t [cx.sp]) _ (width - (gLen cx t : Int))
-             ((width - (gLen cx t : Int)).toNat + 1) _ _ false 0 0 (by simp; omega) (by omega) (by omega)]
-           simp only [map_eq_pure_bind, bind_assoc, pure_bind]
-           refine whileM_bind_congr rfl rfl ?_ ?_ ?_
-           · intro s; rfl
-           · intro s; simp only [jlBody, bind_assoc, pure_bind]; split <;> rfl
-           · intro s; simp [joinWith, intercalate_nil])
+       -- the two guards, decided on both sides whatever their polarity / nesting
+       by_cases hw : (gLen cx t : Int) ≥ width
+       · have hw' : ¬ (gLen cx t : Int) < width := by omega
+         go_guards [hw, hw']
+       have hw' : (gLen cx t : Int) < width := by omega
+       by_cases hg : ((splitOn t [cx.sp]).length : Int) - 1 < 1
+       · have hg' : ¬ ((splitOn t [cx.sp]).length : Int) - 1 ≥ 1 := by omega
+         go_guards [hw, hw', hg, hg']
+       have hg' : ((splitOn t [cx.sp]).length : Int) - 1 ≥ 1 := by omega
+       go_guards [hw, hw', hg, hg']
+       -- parity of the number of gaps: both sides' `oddSubtractor` become a literal
+       have htm : (((splitOn t [cx.sp]).length : Int) - 1).tmod 2 = (((splitOn t [cx.sp]).length : Int) - 1) % 2 :=
+         Int.tmod_eq_emod_of_nonneg (by omega)
+       rcases Int.emod_two_eq (((splitOn t [cx.sp]).length : Int) - 1) with hpar | hpar <;>
+       ( simp only [htm, hpar, Int.reduceEq, Int.reduceBEq, Int.reduceNeg, Bool.false_eq_true, beq_self_eq_true, ↓reduceIte,
+           pure_bind]
+         rw [jl_build' cx (splitOn t [cx.sp])]
+         · simp only [pure_bind]
+           refine jl_tail cx t width _ (by omega) hw' _ _ _ ?_ ?_ ?_
+           · intro s; (try simp only [jlCond]) <;> go_close'
+           · intro s; (try simp only [jlBody, bind_assoc, pure_bind, ite_pure_bind]) <;> go_close'
+           · intro s; simp [joinWith, intercalate_nil]
+         · intro k w acc hk
+           go_close'))
 
 end RosedVerif.GenCodeEq
